@@ -308,3 +308,37 @@ def lint_rng_discipline(rep: Report, fi: FuncInfo, rule: str = "RNG") -> int:
     else:
         rep.ok(rule, fi, f"{fi.name}: random draws", "taken from the generator that advances across calls (no fork / re-seed / state restore in the method)", nontrivial=False)
     return 1
+
+
+#: numeric configuration parameters for which 0 is an admissible, meaningful value
+ZERO_ADMISSIBLE = {"k_factor", "snr_db", "avg_noise_power", "crossover_prob", "erasure_prob", "error_prob", "threshold", "offset", "noise_var", "phase_noise_std", "target_snr_db", "erasure_symbol", "clip", "saturation_level"}
+
+
+def lint_falsy_default(rep: Report, fi: FuncInfo, rule: str) -> int:
+    """A numeric parameter for which zero is a meaningful value must not be defaulted by truthiness: `k = k or 1.0`,
+    `k if k else 1.0`, `if not k: k = 1.0` replace an explicit 0 by the default (K = 0 is Rayleigh fading, 0 dB is an SNR,
+    probability 0 is the identity channel).  Returns the number of obligations emitted (0 or 1)."""
+    params = {p for p in fi.params if p in ZERO_ADMISSIBLE}
+    if not params:
+        return 0
+    bad = None
+    for x in ast.walk(fi.node):
+        if isinstance(x, ast.BoolOp) and isinstance(x.op, ast.Or) and isinstance(x.values[0], ast.Name) and x.values[0].id in params and len(x.values) == 2 and isinstance(x.values[1], ast.Constant) and not isinstance(x.values[1].value, (bool, str)) and x.values[1].value is not None:
+            bad = (x, x.values[0].id)
+        elif isinstance(x, ast.IfExp) and ((isinstance(x.test, ast.Name) and x.test.id in params) or (isinstance(x.test, ast.UnaryOp) and isinstance(x.test.op, ast.Not) and isinstance(x.test.operand, ast.Name) and x.test.operand.id in params)):
+            nm = x.test.id if isinstance(x.test, ast.Name) else x.test.operand.id
+            other = x.orelse if isinstance(x.test, ast.Name) else x.body
+            if isinstance(other, ast.Constant) and isinstance(other.value, (int, float)) and not isinstance(other.value, bool):
+                bad = (x, nm)
+        elif isinstance(x, ast.If) and isinstance(x.test, ast.UnaryOp) and isinstance(x.test.op, ast.Not) and isinstance(x.test.operand, ast.Name) and x.test.operand.id in params:
+            nm = x.test.operand.id
+            if any(isinstance(s, ast.Assign) and any(isinstance(t, ast.Name) and t.id == nm for t in s.targets) and isinstance(s.value, ast.Constant) and isinstance(s.value.value, (int, float)) and not isinstance(s.value.value, bool) for s in x.body):
+                bad = (x, nm)
+        if bad:
+            break
+    if bad:
+        node, nm = bad
+        rep.violation(rule, fi, f"{fi.name}: {unparse(node)[:70]}", f"`{nm}` is replaced by a default whenever it is falsy, so an explicit `{nm} = 0` - a meaningful value - is silently overridden (test `{nm} is None` instead)", node=node)
+    else:
+        rep.ok(rule, fi, f"{fi.name}: parameters {sorted(params)}", "not defaulted by truthiness (an explicit 0 is kept)", nontrivial=False)
+    return 1
